@@ -91,7 +91,7 @@ theorem file_rt_table (order : Option (List Nat)) (d : SDoc) (out : Bytes) (d' :
     (hprev : d.trailer.get PREV = none) (henc : d.trailer.has ENCRYPT = false) :
     ∃ L : Loaded, loadDocOrd order out = .ok L ∧ L.version = d.version ∧ L.binaryMark = d.binaryMark ∧
       L.trailer = d'.trailer ∧ L.xrefStart = (bodyOf [] d).length ∧ L.maxId ≤ d.maxId ∧
-      ∀ id, L.objects.get id = d.objects.get id := by
+      (∀ id, L.objects.get id = d.objects.get id) ∧ SortedO L.objects := by
   obtain ⟨_, htr'⟩ := saveFrom_table_eq [] d out d' hk h
   obtain ⟨t1, t2, t3⟩ := htr
   have hD : ∀ rest, DictReadsBack d'.trailer rest := by
@@ -112,6 +112,25 @@ theorem file_rt_table (order : Option (List Nat)) (d : SDoc) (out : Bytes) (d' :
   obtain ⟨hr1, hr2⟩ := hwf.range p hp
   exact indirectReadsBack_of_ok _ _ _ (by simp [U32_MAX]; omega)
     (by have := hwf.gens p hp; simp [U16_MAX]; omega) (hobjs p hp)
+
+/-- **`file_rt` as an equation on the object list.** If moreover `d.objects` is in `BTreeMap`
+order (strictly ascending ids — what `lopdf` iterates), the loaded object list IS `d.objects`. -/
+theorem file_rt_table_eq (order : Option (List Nat)) (d : SDoc) (out : Bytes) (d' : SDoc)
+    (hk : d.xrefKind = .table) (h : saveFrom [] d = some (out, d')) (hlen : out.length < 4294967296)
+    (hmax : d.maxId + 1 ≤ 4294967295) (hwf : DocWF d) (hsorted : SortedO d.objects)
+    (hobjs : ∀ p ∈ d.objects, ObjOK p.2)
+    (htr : WFObj (.dict d.trailer) ∧ height (.dict d.trailer) ≤ MAX_NESTING ∧ NoRealD d.trailer)
+    (hv1 : ∀ b ∈ d.version, notEol b = true) (hv2 : validUtf8 d.version = true)
+    (hprev : d.trailer.get PREV = none) (henc : d.trailer.has ENCRYPT = false) :
+    ∃ L : Loaded, loadDocOrd order out = .ok L ∧ L.version = d.version ∧ L.binaryMark = d.binaryMark ∧
+      L.trailer = d'.trailer ∧ L.xrefStart = (bodyOf [] d).length ∧ L.maxId ≤ d.maxId ∧
+      L.objects = d.objects := by
+  obtain ⟨L, h1, h2, h3, h4, h5, h6, h7, h8⟩ :=
+    file_rt_table order d out d' hk h hlen hmax hwf hobjs htr hv1 hv2 hprev henc
+  exact ⟨L, h1, h2, h3, h4, h5, h6, sorted_ext _ _ h8 hsorted h7⟩
+
+example : SortedO [((1, 0), Obj.null), ((3, 2), .int 5), ((3, 4), .null)] := by
+  simp [SortedO, idLt]
 
 /-! ### `file_rt`, cross-reference stream -/
 
@@ -412,7 +431,7 @@ theorem file_rt_table_norm (order : Option (List Nat)) (d : SDoc) (out : Bytes) 
     (hprev : d.trailer.get PREV = none) (henc : d.trailer.has ENCRYPT = false) :
     ∃ L : Loaded, loadDocOrd order out = .ok L ∧ L.version = d.version ∧ L.binaryMark = d.binaryMark ∧
       L.trailer = normD d'.trailer ∧ L.xrefStart = (bodyOf [] d).length ∧ L.maxId ≤ d.maxId ∧
-      ∀ id, L.objects.get id = (d.objects.get id).map nfObj := by
+      (∀ id, L.objects.get id = (d.objects.get id).map nfObj) ∧ SortedO L.objects := by
   obtain ⟨_, htr'⟩ := saveFrom_table_eq [] d out d' hk h
   obtain ⟨t1, t2⟩ := htr
   have k1 : ¬ SIZE = PREV := by decide
